@@ -256,6 +256,22 @@ def arg_src(a):
 
 def make_case(d, args, max_steps, tags):
     src = decl_src(d) + "\n\n#%s(%s)" % (d["name"], ", ".join(arg_src(a) for a in args))
+    import zlib
+    scalar_ok = (d.get("spec") is not None and d["inputs"] and len(args) == len(d["inputs"]) and
+                 all(k == U64 for _, k in d["inputs"]) and all(a[0] == "as" and a[1] == "u64" for a in args) and d["out"] in (U64, VEC))
+    if scalar_ok and tags.get("stream") in ("documented", "random-scalar") and zlib.crc32(src.encode()) % 6 == 0:
+        # the machine is started from a function arm with the arm's PATTERN variables as arguments (a local environment),
+        # while globals of the same names hold other values: the arguments of a machine call must be evaluated in the
+        # caller's environment.  Only the machine emits trace events, so result and trace are those of the direct call.
+        n = len(args)
+        xs = ["qx%d" % i for i in range(n)]
+        decoys = "\n".join("%s := %du64" % (x, a[2] + 1 + i) for i, (x, a) in enumerate(zip(xs, args)))
+        params = ", ".join("qp%d<u64>" % i for i in range(n))
+        pat = xs[0] if n == 1 else "(" + ", ".join(xs) + ")"
+        call = "#%s(%s)" % (d["name"], ", ".join(xs))
+        fn = "startvia(%s) => %s\n  ├ %s => %s\n  └ * => %s." % (params, kind_src(d["out"]), pat, call, call)
+        src = decl_src(d) + "\n\n" + decoys + "\n" + fn + "\nstartvia(%s)" % ", ".join(arg_src(a) for a in args)
+        tags = dict(tags, started="from-function-arm")
     return dict(sx=sx(["case", decl_sx(d), ["args"] + [arg_sx(a) for a in args], max_steps]),
                 impl=dict(src=src, max_steps=max_steps), tags=tags, _ast=(d, list(args), max_steps))
 
